@@ -66,7 +66,7 @@ class FnTarget:
         self.omit = False
         self.canary = True
         self.opt_member = False  # `//@ fn? NAME`: the member may be absent from the impl/trait (skipped + recorded)
-        self.tfe = None        # R18: (ghost iterator name or None, invariant text) for `RECV.iter().try_for_each(|p| body)` in tail position
+        self.tfe_tail = None   # R18: (ghost iterator name or None, invariant text) for `RECV.iter().try_for_each(|p| body)` in tail position
         self.attrs = None      # `//@ fn-prefix`: attribute text put before this fn (e.g. #[verifier::when_used_as_spec(..)])
 
 
@@ -95,7 +95,7 @@ class Block:
         self.impl_to_generic = False  # R11: `x: &impl Trait` parameters become a named type parameter
         self.sized = False     # R17: `trait X<..>` emitted as `trait X<..>: Sized` (no unsized implementor / trait object in the crate)
         self.let_chain = False  # R16: `if let P = E && C { B }` (no else) written as nested ifs
-        self.instantiate = None  # R15: (generics, {param: type}, where) -- a blanket impl emitted at given type arguments
+        self.instantiate = None  # R19: (generics, {param: type}, where) -- a blanket impl emitted at given type arguments
         self.as_spec = None    # R10: emit the selected fn a second time as `pub closed spec fn <as_spec>` (its spec twin)
 
 
@@ -230,8 +230,8 @@ class Assembler:
                         tgt.loop_parts[(cur_field[1], cur_field[2])] = text
                     elif kind == 'tail':
                         tgt.tail = text
-                    elif kind == 'tfe':
-                        tgt.tfe = (cur_field[1], text)
+                    elif kind == 'tfe_tail':
+                        tgt.tfe_tail = (cur_field[1], text)
                     elif kind == 'closure':
                         tgt.closures[cur_field[1]] = text
                     elif kind == 'tfe':
@@ -436,7 +436,7 @@ class Assembler:
                             # the expansion introduces: `f(|eta_x| -> (r: T) ensures .. { Path::f(eta_x) })`
                             blk.eta.append(d[4:].strip())
                         elif d.startswith('instantiate '):
-                            # R15 (opt-in, whole impl block): a generic (blanket) impl is emitted INSTANTIATED at the given type
+                            # R19 (opt-in, whole impl block): a generic (blanket) impl is emitted INSTANTIATED at the given type
                             # arguments: `//@ instantiate <Q> | P = Deep<Q> | T = StatementPos | where Q: Visitor<Statement>`
                             # -- the generics list of the impl header is replaced by `<Q>`, its where clause by the given one, and
                             # every occurrence of a substituted type parameter in the header and the body by its argument; no other
@@ -457,7 +457,7 @@ class Assembler:
                                 else:
                                     raise UnitSyntax('line %d: bad instantiate part %r' % (i + 1, p_))
                             blk.instantiate = (gen_, subst_, where_)
-                        elif d in ('try-for-each-to-loop', 'try-for-each-to-loop?') or d.startswith('try-for-each-to-loop ') or d.startswith('try-for-each-to-loop? '):
+                        elif d in ('tail-try-for-each-to-loop', 'tail-try-for-each-to-loop?') or d.startswith('tail-try-for-each-to-loop ') or d.startswith('tail-try-for-each-to-loop? '):
                             # R18 (opt-in, per fn target; the lines that follow are the loop annotation, `iter=NAME` names the ghost
                             # iterator): the TAIL expression `RECV.iter().try_for_each(|PAT| BODY)` of the fn is written by the
                             # definition of Iterator::try_for_each for a Result:
@@ -466,21 +466,21 @@ class Assembler:
                             # error from the fn, whose error type is the closure's -- the original would not type-check otherwise).
                             # vstd has no specification for the adapter and Verus rejects the closure that borrows `self` mutably.
                             # Anchor lost when the fn has no such tail expression.
-                            # `try-for-each-to-loop?`: when the fn no longer ends in such a call the rewrite is skipped (recorded) and the
+                            # `tail-try-for-each-to-loop?`: when the fn no longer ends in such a call the rewrite is skipped (recorded) and the
                             # contract of the fn decides, instead of ending anchor-lost
-                            opts_ = d[len('try-for-each-to-loop'):].split()
+                            opts_ = d[len('tail-try-for-each-to-loop'):].split()
                             if opts_ and opts_[0] == '?':
                                 opts_ = opts_[1:]
-                                blk.cur.optional.add(('tfe',))
-                            elif d.startswith('try-for-each-to-loop?'):
-                                opts_ = d[len('try-for-each-to-loop?'):].split()
-                                blk.cur.optional.add(('tfe',))
+                                blk.cur.optional.add(('tfe_tail',))
+                            elif d.startswith('tail-try-for-each-to-loop?'):
+                                opts_ = d[len('tail-try-for-each-to-loop?'):].split()
+                                blk.cur.optional.add(('tfe_tail',))
                             nm_ = None
                             for opt in opts_:
                                 if not re.match(r'^iter=[A-Za-z_]\w*$', opt):
-                                    raise UnitSyntax('line %d: bad try-for-each-to-loop option %r' % (i + 1, opt))
+                                    raise UnitSyntax('line %d: bad tail-try-for-each-to-loop option %r' % (i + 1, opt))
                                 nm_ = opt[5:]
-                            cur_field = ('tfe', nm_)
+                            cur_field = ('tfe_tail', nm_)
                         elif d == 'supertrait-sized':
                             # R17 (opt-in, trait block): the trait is emitted with the supertrait `Sized`.  A ghost `spec fn` member whose
                             # result mentions `Self` by value (the state of a visitor AFTER a call) needs it; refused (anchor lost) when
@@ -633,7 +633,7 @@ class Assembler:
                 # is written in the tree (a contract that survives the renaming of a parameter, `_dim_list` -> `dim_list`)
                 tgt.params_resolved = True
                 used = [bool(x and re.search(r'\$\d', x)) for x in
-                        [tgt.spec, tgt.head, tgt.tail, (tgt.tfe[1] if tgt.tfe else None)] + list(tgt.loops.values()) + [h[1] for h in tgt.hints]]
+                        [tgt.spec, tgt.head, tgt.tail, (tgt.tfe_tail[1] if tgt.tfe_tail else None)] + list(tgt.loops.values()) + [h[1] for h in tgt.hints]]
                 if any(used):
                     names = self._param_names(src, fn_item)
 
@@ -648,8 +648,8 @@ class Assembler:
                     tgt.spec, tgt.head, tgt.tail = _res(tgt.spec), _res(tgt.head), _res(tgt.tail)
                     tgt.loops = {k_: _res(v_) for k_, v_ in tgt.loops.items()}
                     tgt.hints = [(a_, _res(b_), c_) for (a_, b_, c_) in tgt.hints]
-                    if tgt.tfe:
-                        tgt.tfe = (tgt.tfe[0], _res(tgt.tfe[1]))
+                    if tgt.tfe_tail:
+                        tgt.tfe_tail = (tgt.tfe_tail[0], _res(tgt.tfe_tail[1]))
                     self.rewrites.append('P %s fn %s: $N in the spliced text = parameter names %s' % (blk.relpath, fn_item.name, names))
             if tgt and tgt.attrs:
                 edits.append((fn_item.kw_start, fn_item.kw_start, tgt.attrs.strip() + '\n'))
@@ -703,11 +703,11 @@ class Assembler:
                 edits.append((st[b].start, st[b].start, '\n' + tgt.tail + '\n'))
             if blk.let_chain:
                 self._let_chain_edits(src, blk, fn_item, edits)
-            if tgt and tgt.tfe is not None:
+            if tgt and tgt.tfe_tail is not None:
                 try:
                     self._try_for_each_edits(src, blk, fn_item, tgt, edits)
                 except AnchorLost as e_:
-                    if ('tfe',) not in tgt.optional:
+                    if ('tfe_tail',) not in tgt.optional:
                         raise
                     self.dropped.append('O %s fn %s: %s -- optional rewrite skipped' % (blk.relpath, fn_item.name, e_))
             # loops, closures, R1, R2 inside the body
@@ -1354,7 +1354,7 @@ class Assembler:
                 r0 = j + 1
         if r0 > p_open - 7:
             raise AnchorLost('R18: no receiver for .iter().try_for_each in fn %s (%s)' % (fn_item.name, blk.relpath))
-        nm, ann = tgt.tfe
+        nm, ann = tgt.tfe_tail
         recv = text[st[r0].start:st[p_open - 4 + 1].end]          # RECV.iter()
         edits.append((st[r0].start, st[r0].start, 'for %s in %s' % (pat, (nm + ': ') if nm else '')))
         # RECV.iter() stays verbatim; `.try_for_each(|PAT|` is replaced by the annotation and `{ (`
@@ -1454,7 +1454,7 @@ class Assembler:
             k += 1
 
     def _instantiate_edits(self, src, blk, item, edits):
-        """R15: emit a generic impl instantiated at given type arguments (see the `instantiate` directive)"""
+        """R19: emit a generic impl instantiated at given type arguments (see the `instantiate` directive)"""
         gen, subst, where = blk.instantiate
         st = src.st
         i0 = next(i for i, t in enumerate(st) if t.start >= item.kw_start and t.text == 'impl')
@@ -1511,7 +1511,7 @@ class Assembler:
             if t.kind == 'ident' and t.text in subst and st[k - 1].text != '.':
                 edits.append((t.start, t.end, subst[t.text]))
                 n += 1
-        self.rewrites.append('R15 %s:%d impl `%s` instantiated at %s (generics %s, %s; %d occurrences substituted)'
+        self.rewrites.append('R19 %s:%d impl `%s` instantiated at %s (generics %s, %s; %d occurrences substituted)'
                              % (blk.relpath, src.line_of(item.start), ' '.join(item.header.split()),
                                 ', '.join('%s = %s' % kv for kv in sorted(subst.items())), gen, where or 'no where clause', n))
 
